@@ -31,6 +31,20 @@ theorem ruleType_eq (r : String) (v : List Char) (X : String) (hX : X ≠ "ID")
     · exact absurd h.symm hX
   · exact h
 
+/-- `t_ID`'s second statement either leaves the looked-up type or makes an identifier-rule token an "ID" -/
+theorem ruleFn_cases (ap : Bool) (r : String) (v : List Char) :
+    ruleFn ap r v = ruleType r v ∨ (r = "ID" ∧ ruleFn ap r v = "ID") := by
+  unfold ruleFn
+  split
+  · rename_i h; exact Or.inr ⟨h.1, rfl⟩
+  · exact Or.inl rfl
+
+theorem ruleFn_eq (ap : Bool) (r : String) (v : List Char) (X : String) (hX : X ≠ "ID")
+    (hk : X ∉ LexData.keywords.map (·.2)) (h : ruleFn ap r v = X) : r = X := by
+  rcases ruleFn_cases ap r v with h1 | ⟨_, h2⟩
+  · exact ruleType_eq r v X hX hk (h1 ▸ h)
+  · rw [h2] at h; exact absurd h.symm hX
+
 theorem lt_not_kw : "LINE_TERMINATOR" ∉ LexData.keywords.map (·.2) := by decide
 theorem bc_not_kw : "BLOCK_COMMENT" ∉ LexData.keywords.map (·.2) := by decide
 theorem lc_not_kw : "LINE_COMMENT" ∉ LexData.keywords.map (·.2) := by decide
@@ -40,12 +54,18 @@ theorem rawTok_matcher {s : LexerState} {st : LexState} {t : Token} {st1 : LexSt
     (m : List Char → Option Nat) (hm : ruleMatcher X = some m) :
     m (st.text.drop t.lexpos) = some t.value.length := by
   obtain ⟨r, ⟨_, _, m', _, hm', hn, _⟩, hr⟩ := h.rule
-  have : r = X := ruleType_eq r _ X hX hk (hr ▸ hty)
+  have : r = X := ruleFn_eq _ r _ X hX hk (hr ▸ hty)
   subst this
   rw [hm] at hm'
   simp at hm'
   subst hm'
   exact hn
+
+/-- the rule information of a raw token, with the look-behind flag `t_ID` saw forgotten -/
+theorem rawTok_ruleInfo {s : LexerState} {st : LexState} {t : Token} {st1 : LexState} (h : RawTok s st t st1) :
+    ∃ s r ap, FirstMatch (rulesOf s) (st.text.drop t.lexpos) r t.value.length ∧ t.type = ruleFn ap r t.value := by
+  obtain ⟨r, h1, h2⟩ := h.rule
+  exact ⟨s, r, _, h1, h2⟩
 
 theorem rawTok_value {s : LexerState} {st : LexState} {t : Token} {st1 : LexState} (h : RawTok s st t st1) :
     (st.text.drop t.lexpos).take t.value.length = t.value := by
@@ -85,7 +105,7 @@ theorem marker_cases (ty : String) (h : isMarker ty = true) :
     that matches there; its type is what the rule function made of the rule name -/
 def RuleInfo (text : List Char) (t : Token) : Prop :=
   (text.drop t.lexpos).take t.value.length = t.value ∧
-  ∃ s r, FirstMatch (rulesOf s) (text.drop t.lexpos) r t.value.length ∧ t.type = ruleType r t.value
+  ∃ s r ap, FirstMatch (rulesOf s) (text.drop t.lexpos) r t.value.length ∧ t.type = ruleFn ap r t.value
 
 /-- what a successful `_token` call (with empty `next_tokens`) guarantees -/
 def TokStep (st : LexState) (r : Option Token) (st' : LexState) : Prop :=
@@ -163,7 +183,7 @@ theorem TokStep.of_rawStep {st : LexState} {t : Token} {st' : LexState} (h : Raw
       exact rawTok_gap hraw _ (Or.inl hrt)
   · intro hauto
     rcases hcase with rfl | ⟨ha, _⟩
-    · exact ⟨hle, gap_of_ignored _ s _ hraw.ign, hraw.ne, by omega, hraw.val, rawTok_value hraw, s, hraw.rule⟩
+    · exact ⟨hle, gap_of_ignored _ s _ hraw.ign, hraw.ne, by omega, hraw.val, rawTok_value hraw, rawTok_ruleInfo hraw⟩
     · rw [ha] at hauto; simp at hauto
 
 theorem TokStep.of_rawStep_none {st : LexState} {st' : LexState} (h : RawStep st none st') :
